@@ -186,6 +186,11 @@ def specContingency (A B : List Iv) (size : Nat) : Nat × Nat × Nat × Nat :=
 def clipK (start stop size : Int) : Int × Int := (max 0 start, min size stop)
 
 def extendK (fwd : Bool) (start stop len size : Int) : Int × Int :=
+  (if fwd then start else stop - min len stop, if fwd then min (start + len) size else stop)
+
+/-- the kernel as shipped before the repair for unsigned columns: `max (stop - len) 0`. Over the integers it is the same
+function (`extendK_eq_old`); on an unsigned NumPy column `stop - len` wraps around before the maximum is taken. -/
+def extendKOld (fwd : Bool) (start stop len size : Int) : Int × Int :=
   (if fwd then start else max (stop - len) 0, if fwd then min (start + len) size else stop)
 
 /-! ### exported `get_pileup`: the part that lives in the repository -/
